@@ -564,6 +564,7 @@ func checkC18(c *hx.Checker) {
 			})
 		}
 	}
+	loadersRefusableCases(c)
 	// the file and zip loaders on damaged files: empty, 1..3 bytes, cut in the middle, last byte missing - an error, never a panic
 	for name, b := range map[string][]byte{"mlp.onnx": seeds["mlp.onnx"], "scaler.onnx": seeds["scaler.onnx"]} {
 		for _, cut := range []int{0, 1, 2, 3, len(b) / 2, len(b) - 1} {
@@ -586,7 +587,9 @@ func checkC18(c *hx.Checker) {
 				path := filepath.Join(dir, "m.onnx")
 				os.WriteFile(path, b[:cut], 0o644)
 				how = "NewModelFromFile"
-				if m, err := gonnx.NewModelFromFile(path); err == nil && m != nil && cut < len(b)/2 {
+				if m, err := gonnx.NewModelFromFile(path); err == nil && m == nil {
+					return mk("nil-output", fmt.Sprintf("NewModelFromFile returned neither a model nor an error for a file cut to %d bytes", cut))
+				} else if err == nil && cut < len(b)/2 {
 					return mk("not-refused", fmt.Sprintf("NewModelFromFile loaded a file cut to %d bytes", cut))
 				}
 				how = "NewModelFromFile(missing file)"
@@ -603,7 +606,9 @@ func checkC18(c *hx.Checker) {
 					hx.HarnessError("zip reader: %v", err)
 				}
 				how = "NewModelFromZipFile"
-				if m, err := gonnx.NewModelFromZipFile(zr.File[0]); err == nil && m != nil && cut < len(b)/2 {
+				if m, err := gonnx.NewModelFromZipFile(zr.File[0]); err == nil && m == nil {
+					return mk("nil-output", fmt.Sprintf("NewModelFromZipFile returned neither a model nor an error for an entry cut to %d bytes", cut))
+				} else if err == nil && cut < len(b)/2 {
 					return mk("not-refused", fmt.Sprintf("NewModelFromZipFile loaded an entry cut to %d bytes", cut))
 				}
 				return hx.OK("loaders-refuse-damaged-files")
@@ -751,4 +756,67 @@ func loadersCase(n int, compressible bool, mk func(kind, detail string) *hx.Viol
 		}
 	}
 	return hx.OK("loaders-agree")
+}
+
+// loadersRefusableCases (shared by C12 and C18): see the comment inside.
+func loadersRefusableCases(c *hx.Checker) {
+	// files that decode but must be refused (payload that does not match its dims, unsupported opset, both) through all
+	// three loaders: each returns an error, none a nil model without one, and they agree
+	{
+		bad := func(opset int64, badPayload bool) []byte {
+			w := hx.TensorProto("w", recFill(ref.F32, []int{4}, 3), "raw")
+			if badPayload {
+				w.RawData = w.RawData[:len(w.RawData)-3]
+			}
+			mp := hx.Model(&onnx.GraphProto{Name: "g", Initializer: []*onnx.TensorProto{w}, Output: []*onnx.ValueInfoProto{hx.ValueInfoNoShape("w")}}, 13)
+			mp.OpsetImport = []*onnx.OperatorSetIdProto{{Domain: "", Version: opset}}
+			b, _ := proto.Marshal(mp)
+			return b
+		}
+		for name, b := range map[string][]byte{"payload-mismatch": bad(13, true), "unsupported-opset": bad(12, false), "both": bad(14, true)} {
+			name, b := name, b
+			c.Case(hx.CaseInfo{ID: "loaders/refusable-file/" + name, Tags: []string{"loaders", "refusable-file"}, NonTrivial: true}, func() (v *hx.Violation) {
+				mk := func(kind, detail string) *hx.Violation {
+					return &hx.Violation{Kind: kind, Detail: detail, Replay: map[string]any{"replay_kind": "loaders-refusable", "file_b64": base64.StdEncoding.EncodeToString(b)}}
+				}
+				defer func() {
+					if p := recover(); p != nil {
+						v = mk("panic", fmt.Sprintf("%v :: %s", p, firstLines(string(debug.Stack()), 12)))
+					}
+				}()
+				dir, err := os.MkdirTemp("", "verif-loaders")
+				if err != nil {
+					hx.HarnessError("temp dir: %v", err)
+				}
+				defer os.RemoveAll(dir)
+				path := filepath.Join(dir, "m.onnx")
+				os.WriteFile(path, b, 0o644)
+				var buf bytes.Buffer
+				zw := zip.NewWriter(&buf)
+				fw, _ := zw.CreateHeader(&zip.FileHeader{Name: "m.onnx", Method: zip.Deflate})
+				fw.Write(b)
+				zw.Close()
+				zr, zerr := zip.NewReader(bytes.NewReader(buf.Bytes()), int64(buf.Len()))
+				if zerr != nil {
+					hx.HarnessError("zip reader: %v", zerr)
+				}
+				m1, e1 := gonnx.NewModelFromBytes(b)
+				m2, e2 := gonnx.NewModelFromFile(path)
+				m3, e3 := gonnx.NewModelFromZipFile(zr.File[0])
+				for i, r := range []struct {
+					m *gonnx.Model
+					e error
+				}{{m1, e1}, {m2, e2}, {m3, e3}} {
+					how := []string{"NewModelFromBytes", "NewModelFromFile", "NewModelFromZipFile"}[i]
+					if r.e == nil && r.m == nil {
+						return mk("nil-output", how+" returned neither a model nor an error ("+name+")")
+					}
+					if r.e == nil {
+						return mk("not-refused", how+" loaded a file with "+name)
+					}
+				}
+				return hx.OK("loaders-refuse-damaged-files")
+			})
+		}
+	}
 }
